@@ -91,13 +91,19 @@ pub fn run(tier: Tier, seed: u64) -> i32 {
                 }
             }
         }
+        // every other signal list comes with a declared virtual signal (with or without a column)
+        let declared = li % 2 == 1;
+        if declared {
+            names.push("VV".into());
+        }
         let answer: Answer = sigs.iter().filter(|s| s.is_out()).map(|s| (s.name.clone(), V::Num(1))).collect();
         for hsel in ordered_selections(names.len(), max_cols) {
             if hsel.is_empty() {
                 continue;
             }
             let header: Vec<String> = hsel.iter().map(|&i| names[i].clone()).collect();
-            let bound = bind(&header, &sigs, &[]);
+            let decls: Vec<(String, Expr)> = if declared { vec![("VV".to_string(), lit(3))] } else { vec![] };
+            let bound = bind(&header, &sigs, &decls);
             let ncol = header.len();
             let lit_row = |f: &dyn Fn(usize) -> i64| Stmt::Row((0..ncol).map(|j| Entry::Lit(f(j), Radix::Dec)).collect());
             let zx_row = Stmt::Row((0..ncol).map(|j| if bound.input_col[j] { Entry::Z } else { Entry::X }).collect());
@@ -114,6 +120,11 @@ pub fn run(tier: Tier, seed: u64) -> i32 {
                 zx_row,
                 lit_row(&|j| j as i64 + 5),
             ];
+            let mut body = body;
+            if declared {
+                body.insert(1, Stmt::Declare("VV".into(), lit(3)));
+                st.witness(if header.iter().any(|h| h == "VV") { "virtual_signal_with_a_header_column" } else { "virtual_signal_without_a_header_column" });
+            }
             let prog = Program { header: header.clone(), body };
             let text = text(&prog);
             let tc = load(&text, &sigs, DEFAULT_BUDGET);
@@ -196,6 +207,8 @@ pub fn run(tier: Tier, seed: u64) -> i32 {
             "bidirectional_pair_partial",
             "header_order_differs_from_signal_list_order",
             "driver_fault_then_continue",
+            "virtual_signal_with_a_header_column",
+            "virtual_signal_without_a_header_column",
         ],
         exhaustive_note: "all signal lists and headers within the stated bounds".into(),
         e1: false,
